@@ -122,7 +122,7 @@ def run_batch(jobs, sim_dir=SIM_DIR, repo=REPO, workers=NCPU, stop_on_violation=
     # longest first (makespan), except that the cheap special-purpose kinds — thread churn, coarse clock, many
     # threads, pooled 16-thread runs: together a few per cent of the batch — go to the front, so that what only
     # they can see is reported in the first minute rather than the last
-    front = {"G", "C", "T", "P16"}
+    front = {"G", "C", "T", "P16", "X", "B"}
     order = sorted(jobs, key=lambda j: (0 if j.get("kind") in front else 1, -runner.predicted_cost(j)))
     recs = []
     stop = False
@@ -331,6 +331,11 @@ def sysroot_note(jobs=None):
     if not sr:
         n = sum(1 for j in (jobs or []) if j.get("clockq"))
         log(f"NOTE: patched-clock sysroot unavailable ({err or 'build failed'}); using the stock Miri sysroot, {n} coarse-clock runs run with the fine clock")
+    if not runner.SYSROOT_BE and jobs is not None:
+        n = sum(1 for j in jobs if j.get("target"))
+        if n:
+            log(f"NOTE: sysroot for {runner.BE_TARGET} unavailable; the {n} big-endian runs of the plan are skipped")
+            jobs[:] = [j for j in jobs if not j.get("target")]
     return sr
 
 
@@ -467,6 +472,7 @@ def write_evidence_file(tier, seed, jobs, recs, audit, wall, reported, stopped, 
                 "entropy_seedings(one per thread that drew)": sum(runner.nthreads(r["job"]) + (1 if r["job"].get("warm") else 0) for r in ok),
                 "runs_with_main_thread_warm_up_before_workers": sum(1 for r in ok if r["job"].get("warm")),
                 "runs_with_coarse_clock(Instant quantised to 1ms..1s)": sum(1 for r in ok if r["job"].get("clockq")) if runner.SYSROOT else 0,
+                "runs_interpreting_a_big_endian_target(s390x)": sum(1 for r in ok if r["job"].get("target")),
                 "runs_interpreting_the_release_profile": sum(1 for r in ok if r["job"].get("release")),
                 "runs_with_more_than_255_threads_over_process_life": sum(1 for r in ok if runner.nthreads(r["job"]) > 255),
                 "runs_with_successive_thread_generations": sum(1 for r in ok if r["job"].get("gens", 1) > 1),
